@@ -339,6 +339,33 @@ def main(ctx):
                 bounds=dict(data=[list(d) for d in SWEEP_DATA], nbin="1..64", binsize="span/k for k in 1,2,3,4,6,7,9,10,11,13",
                             limits=["none", "min=data minimum", "max=data maximum"]))
 
+    # the float64 neighbourhood (+-3 ulps) of every bin edge min + k*binsize, k = 0..40, for bin sizes that are not
+    # dyadic: on which side of an edge a datum falls is decided by one rounded division - both engines and the reference
+    # must agree on every one of these data, given singly and all at once
+    def expand_edges(u):
+        bs, mn = u
+        edges = [mn + k * bs for k in range(0, 41)]
+        pts = []
+        for e in edges:
+            v = e
+            for j in range(4):
+                pts.append(v)
+                v = float(np.nextafter(v, np.inf))
+            v = e
+            for j in range(3):
+                v = float(np.nextafter(v, -np.inf))
+                pts.append(v)
+        pts = [p_ for p_ in dict.fromkeys(pts) if p_ >= mn]
+        mx = mn + 40 * bs
+        for i in range(0, len(pts), 7):
+            yield ("f8", tuple(pts[i:i + 7]), "binsize", bs, mn, mx, "histogram")
+        yield ("f8", tuple(pts), "binsize", bs, mn, mx, "binner")
+        yield ("f8", tuple(pts[::-1]), "binsize", bs, mn, None, "histogram")
+
+    edunits = [(bs, mn) for bs in (0.1, 0.3, 1.0 / 3.0, 2.5, 1e-3, 0.7, 1e5 / 3.0) for mn in (0.0, -1.0, 0.1, 1e6 + 0.1)]
+    ctx.lattice("edge-neighbourhoods", edunits, one, expand=expand_edges,
+                bounds=dict(binsizes=[0.1, 0.3, "1/3", 2.5, 1e-3, 0.7, "1e5/3"], mins=[0.0, -1.0, 0.1, 1000000.1], edges="k = 0..40", neighbourhood="-3..+3 ulps"))
+
     # long arrays: every 2-symbol pattern of length 12 (thorough) / 8 (quick)
     LL = ctx.pick(8, 12)
     pairs = [(0.0, 1.0), (0.5, 3.7), (-1.0, 0.30000000000000004), (1.0, 1.0)]
